@@ -41,10 +41,12 @@ func NewControlFile(path string, fp *os.File) *ControlFile {
 
 func (m *ControlFile) Close() error {
 	if m != nil {
+		// file.Close unlocks and then closes: the descriptor is closed even when the unlocking
+		// fails, so the file can - and has to - be removed all the same
+		var closeErr error
 		if m.fp != nil {
-			if err := file.Close(m.fp); err != nil {
-				return err
-			}
+			closeErr = file.Close(m.fp)
+			m.fp = nil
 		}
 
 		verifPoint("cf.exists")
@@ -54,6 +56,7 @@ func (m *ControlFile) Close() error {
 				return err
 			}
 		}
+		return closeErr
 	}
 	return nil
 }
@@ -138,7 +141,14 @@ func TryCreateRLockFile(filePath string) (controlFile *ControlFile, err error) {
 	}
 	lockFile := NewControlFile(lockFilePath, lfp)
 	defer func() {
-		err = NewCompositeError(err, lockFile.Close())
+		if e := lockFile.Close(); e != nil {
+			// do not hand out a read lock together with an error: nobody would release it
+			if controlFile != nil {
+				_ = controlFile.Close()
+				controlFile = nil
+			}
+			err = NewCompositeError(err, e)
+		}
 	}()
 
 	verifPoint("rlock.create")
